@@ -13,7 +13,9 @@ NA = "onnx_ir._name_authority"
 LEVEL = "proof"
 TRUSTED = ["f-strings are deterministic functions of their formatted values (uninterpreted)"]
 NOT_DECIDED = ["termination of the candidate loop (needs injectivity of the name format and finiteness of the seen set)",
-               "NameFixPass end to end and rename_values (closures, traversal callbacks, nested dict/list bookkeeping): bounded stand-in"]
+               "NameFixPass: the per-value / per-node kernels (_find_and_record_next_unique_name, _fix_duplicate_*_name, _assign_*_name) are PROVED "
+               "(a name not used before is kept, a new name is never one used before nor one reserved for an unvisited object); the traversal "
+               "(scope stack, visiting order) and rename_values' success half: bounded stand-in"]
 BOUNDED = [{"name": "C15 NameFixPass on models with missing/duplicated names across scopes; rename_values over all target assignments (bounded)",
             "script": "bounded_names.py", "args": []}]
 
@@ -113,3 +115,71 @@ def class_name_prop(eng, cls):
         return orig(p, obj, name, val, node)
     eng.setattr_extra = setattr_extra
 
+
+
+# ------------------------------------------------------------------------------------------------------------------
+# NameFixPass kernels (passes/common/naming.py): the per-value / per-node steps and the candidate loop
+NM = "onnx_ir.passes.common.naming"
+
+
+def add_namefix_targets(eng):
+    """`After the name-fixing pass ... value names are unique within every graph ..., names that were already unique are kept`:
+    the kernels every value and node goes through.
+      _find_and_record_next_unique_name : the result is not a name used before, is recorded, is the preferred name itself or
+                                          not a reserved name (a name still carried by an object that has not been visited);
+                                          nothing else is added to the used set, the reserved set is untouched.
+      _fix_duplicate_value/node_name    : a name not used before is KEPT (returns False, the name is recorded); otherwise the
+                                          new name is not a name used before (returns True).
+      _assign_value/node_name           : the new name is not a name used before.
+    The traversal (scopes pushed/popped, inputs/outputs/initializers first) is the bounded stand-in's."""
+    SETS = eng.SET(TOpt(STR))        # names read from Value.name / Node.name are Optional[str]
+    CNT = eng.COUNTER(STR)
+    eng.declare_class_from_source(NM, "NameFixPass", fields={"_name_generator": TRef("NameGen"), "_reserved_value_names": SETS, "_reserved_node_names": SETS})
+    eng.add_class(ClassDecl("NameGen"))
+    eng.method_models = dict(eng.method_models)
+    for m in ("generate_value_name", "generate_node_name"):
+        eng.method_models[("NameGen", m)] = FnDecl(f"NameGenerator.{m}", "contract", None, None, params=["self", "obj"], requires=[], ensures=[],
+                                                  ret=STR, modifies=[], pure=True)
+    used_grows = ("forall(lambda x=optstr: iff(x in box(used_names), old(x in box(used_names)) or x == result))")
+    find_ens = ["not old(result in box(used_names))", "result in box(used_names)", used_grows,
+                "result == preferred_name or not (result in box(reserved_names))",
+                "unchanged(%r) or used_names is reserved_names" % (SETS.cls + ".$v") if False else "forall(lambda x=optstr: (x in box(reserved_names)) == old(x in box(reserved_names))) or used_names is reserved_names"]
+    eng.add_target(Target("_find_and_record_next_unique_name", mod=NM, qual="_find_and_record_next_unique_name",
+        params=dict(preferred_name=STR, used_names=SETS, counter=CNT, reserved_names=SETS),
+        requires=["nonnull(used_names)", "nonnull(counter)", "nonnull(reserved_names)", "used_names is not reserved_names"],
+        loops={0: LoopSpec(invariant=["unchanged(%r)" % (SETS.cls + ".$v"), "nonnull(used_names)", "nonnull(reserved_names)"], modifies=[CNT.cls + ".$v"])},
+        ensures=find_ens, modifies=[SETS.cls + ".$v", CNT.cls + ".$v"]))
+    find_c = FnDecl(f"{NM}._find_and_record_next_unique_name", "contract", NM, "_find_and_record_next_unique_name",
+        requires=["nonnull(used_names)", "nonnull(counter)", "nonnull(reserved_names)", "used_names is not reserved_names"],
+        ensures=find_ens, ret=STR, modifies=[SETS.cls + ".$v", CNT.cls + ".$v"])
+
+    def setup(e, p, env):
+        e.functions[f"{NM}._find_and_record_next_unique_name"] = find_c
+        e.global_overrides[(NM, "logger")] = __import__("pyvc.types", fromlist=["VOpaque"]).VOpaque("logger")
+    for kind, cls, res in (("value", "Value", "_reserved_value_names"), ("node", "Node", "_reserved_node_names")):
+        obj = kind
+        pre = ["nonnull(%s)" % obj, "nonnull(used_names)", "nonnull(counter)", f"nonnull(self.{res})", f"used_names is not self.{res}",
+               "nonnull(self._name_generator)"]
+        kept = (f"implies(not old({obj}._name in box(used_names)), result == False and {obj}._name == old({obj}._name) and "
+                f"forall(lambda x=optstr: iff(x in box(used_names), old(x in box(used_names)) or x == old({obj}._name))))")
+        renamed = (f"implies(old({obj}._name in box(used_names)), result == True and {obj}._name is not None and "
+                   f"forall(lambda x=optstr: implies(x == {obj}._name, not old(x in box(used_names)))) and {obj}._name in box(used_names))")
+        eng.add_target(Target(f"NameFixPass._fix_duplicate_{kind}_name", mod=NM, qual=f"NameFixPass._fix_duplicate_{kind}_name", self_cls="NameFixPass",
+            params={obj: TRef(cls), "used_names": SETS, "counter": CNT}, setup=setup,
+            requires=pre + [f"{obj}._name is not None and some({obj}._name) != ''"],
+            ensures=[kept, renamed], raises={"AssertionError": []},
+            modifies=[SETS.cls + ".$v", CNT.cls + ".$v", f"{cls}._name"]))
+        eng.add_target(Target(f"NameFixPass._assign_{kind}_name", mod=NM, qual=f"NameFixPass._assign_{kind}_name", self_cls="NameFixPass",
+            params={obj: TRef(cls), "used_names": SETS, "counter": CNT}, setup=setup,
+            requires=pre + [f"{obj}._name is None or some({obj}._name) == ''"],
+            ensures=["result == True", f"{obj}._name is not None", f"forall(lambda x=optstr: implies(x == {obj}._name, not old(x in box(used_names))))",
+                     f"{obj}._name in box(used_names)"],
+            raises={"AssertionError": []}, modifies=[SETS.cls + ".$v", CNT.cls + ".$v", f"{cls}._name"]))
+
+
+_build15 = build
+
+
+def build(eng, tier):
+    _build15(eng, tier)
+    add_namefix_targets(eng)
